@@ -1701,11 +1701,14 @@ def OP_CHECK_TEMPLATE(tape: Tape, stack: Stack, cache: dict) -> None:
             continue
         template = stack.get()
         field = cache[f'sigfield{i}']
-        s = Stack()
-        s.put(field)
-        s.put(template)
         t = Tape(b'', plugins={**tape.plugins}, contracts={**tape.contracts})
-        result = run_plugins('check_template', t, s, cache)
+        result = []
+        for plugin in [*t.plugins.get('check_template', [])]:
+            # every plugin gets its own copy of the arguments to consume
+            s = Stack()
+            s.put(field)
+            s.put(template)
+            result.append(plugin(t, s, cache))
         if not len(result):
             all_valid = all_valid and bytes_are_same(template, field)
         else:
